@@ -299,7 +299,11 @@ func (l *Lexer) Next() (token.Token, error) {
 	case rune('\n'):
 		tok = l.newToken(token.NEWLINE, string(l.ch))
 	case rune(0):
+		// Stay on the end of the input: reading on would move the position
+		// (and the column reported for errors at end of file) past the text.
 		tok = l.newToken(token.EOF, "")
+		l.prevToken = tok
+		return tok, nil
 	default:
 		var err error
 		if isDigit(l.ch) {
